@@ -145,6 +145,14 @@ func cmdHist(o *Out, line string, f []string) {
 		}
 		return hx(docBytes(project(kids, false)))
 	}
+	// C07 "Resolve is read-only": bytes handed out by Resolve are never modified by a later operation
+	var held, heldCopies [][]byte
+	hold := func(b []byte) {
+		if len(b) > 0 && len(held) < 64 {
+			held = append(held, b)
+			heldCopies = append(heldCopies, append([]byte{}, b...))
+		}
+	}
 	inWriter := func() int {
 		docs, err := structuredOf(w.good.Bytes())
 		if err != nil {
@@ -165,6 +173,7 @@ func cmdHist(o *Out, line string, f []string) {
 				bad("Resolve fails although Info reports pending samples", map[string]string{"when": when})
 				return
 			}
+			hold(res)
 			res2, _ := c.Resolve()
 			if len(wireDocs(res)) != len(wireDocs(res2)) || strings.Join(wireDocs(res), ",") != strings.Join(wireDocs(res2), ",") {
 				bad("Resolve is not repeatable", map[string]string{"when": when})
@@ -277,6 +286,7 @@ func cmdHist(o *Out, line string, f []string) {
 			if err != nil {
 				obs = append(obs, "Rerr")
 			} else {
+				hold(out)
 				obs = append(obs, "R["+strings.Join(wireDocs(out), ",")+"]")
 			}
 		case 'z':
@@ -337,8 +347,18 @@ func cmdHist(o *Out, line string, f []string) {
 		}
 	}
 	final := "-"
+	writerClosedOK := false
 	if wc != nil {
-		final = "close=" + errStr(wc.Close())
+		// Close, retried while it fails (a failed flush keeps the samples pending: the retry must deliver them)
+		var rs []string
+		closedOK := false
+		for try := 0; try < 3 && !closedOK; try++ {
+			err := wc.Close()
+			rs = append(rs, errStr(err))
+			closedOK = err == nil
+		}
+		final = "close=" + strings.Join(rs, ",")
+		writerClosedOK = closedOK
 	} else if out, err := c.Resolve(); err != nil {
 		final = "err"
 	} else {
@@ -375,6 +395,12 @@ func cmdHist(o *Out, line string, f []string) {
 			}
 		}
 	}
+	for i := range held {
+		if !bytes.Equal(held[i], heldCopies[i]) {
+			bad("bytes returned by an earlier Resolve were modified by a later operation on the collector", map[string]int{"resolve": i, "length": len(held[i])})
+			break
+		}
+	}
 	o.nontrivial(line)
 	o.count("hist-" + ctor)
 	o.count(fmt.Sprintf("hist-len<%d", 4*(1+len(ops)/4)))
@@ -388,6 +414,10 @@ func cmdHist(o *Out, line string, f []string) {
 			bad("writer collector output does not decode", err.Error())
 		} else if len(script) == 0 && !skipF1 && strings.Join(docs, ",") != strings.Join(accepted, ",") {
 			bad("writer collector output differs from the documents written", map[string]int{"decoded": len(docs), "written": len(accepted)})
+		} else if writerClosedOK && !quietScript(script) && !skipF1 && strings.Join(docs, ",") != strings.Join(accepted, ",") {
+			// C09: a Close that returned nil has delivered every accepted, not yet durable sample - also when earlier
+			// writes (or earlier Close calls) failed
+			bad("Close returned nil but the complete writes do not hold every accepted document", map[string]int{"decoded": len(docs), "written": len(accepted)})
 		}
 	} else {
 		checkLog("at the end")
@@ -417,6 +447,17 @@ func cmdHist(o *Out, line string, f []string) {
 		}
 	}
 	_ = streaming
+}
+
+// quietScript: does the fault script contain a write that is short without reporting an error (an io.Writer
+// contract violation no collector can notice)?
+func quietScript(script []string) bool {
+	for _, e := range script {
+		if strings.HasPrefix(e, "quiet") {
+			return true
+		}
+	}
+	return false
 }
 
 // sameSchemaRun exists so that the "only the last chunk of a run may be short" clause is applied only by
